@@ -22,9 +22,11 @@ import (
 )
 
 type c20Line struct {
-	Prefix    string // jq text evaluated before the spinning part of a Spin line (same evaluation)
-	Text      string // what the user types
-	Spin      bool   // the line prints its marker and then spins forever (must be interrupted)
+	Prefix    string   // jq text evaluated before the spinning part of a Spin line (same evaluation)
+	RefPrefix string   // if set: what the reference (uninterrupted) session evaluates instead of Prefix
+	Extra     []string // further markers inside Prefix: one interrupt each when `"marker"\n` has been written
+	Text      string   // what the user types
+	Spin      bool     // the line prints its marker and then spins forever (must be interrupted)
 	Marker    string
 	Interrupt int // interrupts to send when the marker is seen (Spin lines), or at the prompt (idle interrupt)
 	AtPrompt  bool
@@ -64,7 +66,11 @@ func c20RunSession(lines []c20Line, interrupts bool, stopAtEnd bool) c20Transcri
 			if interrupts {
 				text = fmt.Sprintf("%s%q, (range(1e12) | select(false))", l.Prefix, l.Marker)
 			} else {
-				text = fmt.Sprintf("%s%q", l.Prefix, l.Marker)
+				pre := l.Prefix
+				if l.RefPrefix != "" {
+					pre = l.RefPrefix
+				}
+				text = fmt.Sprintf("%s%q", pre, l.Marker)
 			}
 		}
 		o.Lines = append(o.Lines, text)
@@ -77,6 +83,17 @@ func c20RunSession(lines []c20Line, interrupts bool, stopAtEnd bool) c20Transcri
 		for _, l := range lines {
 			// wait for the newline after the marker: the value and its newline are two writes, and output written
 			// after cancellation is (rightly) suppressed
+			for _, em := range l.Extra {
+				if strings.Contains(s, "\""+em+"\"\n") {
+					mu.Lock()
+					done := fired[em]
+					fired[em] = true
+					mu.Unlock()
+					if !done {
+						send(1)
+					}
+				}
+			}
 			if l.Spin && l.Interrupt > 0 && strings.Contains(s, "\""+l.Marker+"\"\n") {
 				mu.Lock()
 				done := fired[l.Marker]
@@ -193,6 +210,47 @@ func c20FailedNested(run *ev.Run) {
 			run.Violation("interp:failed-nested:output:"+c.name, "failed-nested-eval session: transcript differs from the uninterrupted reference:\n"+firstDiff(ref.Stdout, got.Stdout), nil)
 		default:
 			run.Distinct("interp:failed-nested:" + c.name)
+		}
+	}
+}
+
+// c20CaughtCancel: a nested evaluation is interrupted, the enclosing evaluation CATCHES the cancellation error and
+// keeps running its own code; the next interrupt must cancel the enclosing evaluation (seed C20-F: the interrupted
+// nested evaluation stayed on the interrupt stack as a dead top entry and swallowed every later interrupt).
+func c20CaughtCancel(run *ev.Run) {
+	saved := c20SessionTimeout
+	c20SessionTimeout = 25 * time.Second
+	defer func() { c20SessionTimeout = saved }()
+	for _, c := range []struct{ name, prefix, ref string }{
+		{"try-eval", `(try eval("\"m1_cc\", (range(1e12) | select(false))") catch "caught"), `, `"m1_cc", "caught", `},
+		{"try-eval-twice", `(try eval("\"m1_cc\", (range(1e12) | select(false))") catch "caught"), (try eval("\"m1b_cc\", (range(1e12) | select(false))") catch "caught2"), `, `"m1_cc", "caught", "m1b_cc", "caught2", `},
+		{"optional-eval", `(eval("\"m1_cc\", (range(1e12) | select(false))")?), `, `"m1_cc", `},
+	} {
+		extra := []string{"m1_cc"}
+		if c.name == "try-eval-twice" {
+			extra = append(extra, "m1b_cc")
+		}
+		lines := []c20Line{
+			{Text: "1+1"},
+			{Spin: true, Prefix: c.prefix, RefPrefix: c.ref, Extra: extra, Marker: "m2_cc", Interrupt: 1},
+			{Text: `"after"`},
+			{Text: "^D"},
+		}
+		ref := c20RunSession(lines, false, false)
+		got := c20RunSession(lines, true, false)
+		run.Eval(1)
+		run.Count("interp:caught-cancel-scenarios", 1)
+		switch {
+		case got.Panic != "":
+			run.Violation("interp:panic", "caught-cancel session ("+c.name+") panicked\n"+trunc(got.Panic, 1500), nil)
+		case got.Timeout:
+			run.Violation("interp:caught-cancel-swallows-interrupt:"+c.name, "`"+c.prefix+"\"m2\", (range(1e12)|select(false))`: the nested evaluation was interrupted and its cancellation caught; the next interrupt (sent after the enclosing evaluation printed its marker) did not end the enclosing evaluation within 25 s", nil)
+		case ref.Timeout:
+			run.Inconclusive("caught-cancel-reference-timeout")
+		case got.Stdout != ref.Stdout || got.Exit != ref.Exit:
+			run.Violation("interp:caught-cancel:output:"+c.name, "caught-cancel session: transcript differs from the reference (nested evaluation replaced by its marker and the catch value):\n"+firstDiff(ref.Stdout, got.Stdout), nil)
+		default:
+			run.Distinct("interp:caught-cancel:" + c.name)
 		}
 	}
 }
@@ -362,6 +420,7 @@ func c20Interp(run *ev.Run) {
 	c20Abandoned(run)
 	c20FailedNested(run)
 	c20BlockedIO(run)
+	c20CaughtCancel(run)
 	c20OutputSuppressed(run)
 	n := run.Pick(24, 400)
 	for id := 0; id < n; id++ {
